@@ -128,7 +128,7 @@ PROPS = {
                     'the application/x-www-form-urlencoded set is swept through URLSearchParams by the C12 workloads (trace/TraceParams.tla)'],
                 models=[dict(module='MC_PercentEncode', cfg='MC_PercentEncode')],
                 workloads=[dict(name='byte-sweep', gen=gen_url.pct_workload, attribute_all=True),
-                           W_PARSE(500, 20000)]),
+                           W_PARSE(500, 20000)]),   # + the form-urlencoded codec sweep, appended below (needs _PMOD)
     'C19': dict(level=MC, rule=RULE, assumptions=ASSUME_URL,
                 workloads=[W_WPT_SET, W_HIST(800, 25000), W_PARSE(800, 20000)]),
 }
@@ -158,6 +158,11 @@ W_P_REPLAY = dict(name='tlc-behaviours-replayed', gen=gen_params.mc_replay, repl
 # sort-centred histories and the round-trip lists are generated into ONE ops list (gen_params.mixed_workload)
 W_P_MIXED = dict(name='params-mixed', gen=gen_params.mixed_workload, n_quick=1000, n_thorough=40000,
                  configs_quick=['default'], configs_thorough=['default'], **_PMOD)
+W_P_CODEC = dict(name='form-urlencoded-codec-sweep', gen=gen_params.codec_workload, n_quick=0, n_thorough=0, attribute_any=True, **_PMOD)
+PROPS['C11']['workloads'].append(W_P_CODEC)
+PROPS['C11']['assumptions'] = [a for a in PROPS['C11']['assumptions'] if 'application/x-www-form-urlencoded set is swept' not in a] + [
+    'the application/x-www-form-urlencoded set and its decoder (malformed escapes are literal text) are swept through URLSearchParams '
+    '(trace/TraceParams.tla, workload form-urlencoded-codec-sweep)']
 # the same generator (other seed) on the ASan + UBSan + LSan build: the executor releases every C handle / owned
 # string / list / iterator exactly once, so a leak, double free or over-read in the wrapper ends the run ("crashed")
 W_P_MIXED_SAN = dict(name='params-mixed-sanitized', gen=gen_params.mixed_workload, n_quick=200, n_thorough=8000,
